@@ -401,6 +401,21 @@ class Dependent(Ty):
         return self.fn(interp, name, env)
 
 
+class Dependent(Ty):
+    """Shape of a result (or of a raised exception) that is built from the arguments of the call:
+    ``fn(interp, name, env)`` with ``env`` = parameters and ghosts by name.  Only meaningful where a
+    contract is *used* (call sites); e.g. a result object that carries one of the arguments."""
+
+    def __init__(self, fn):
+        self.fn = fn
+
+    def make(self, interp, name):
+        raise Unsupported('Dependent shape outside a call site')
+
+    def make_for_call(self, interp, name, env):
+        return self.fn(interp, name, env)
+
+
 def make_indexed(interp, ty, uid, idx_term):
     """Element of an SList at a symbolic index: scalar fields become applications of
     uninterpreted functions to the index, so equal indices give equal elements."""
@@ -648,7 +663,13 @@ class Registry:
 
     def model_for(self, f):
         try:
-            return self.models.get(f)
+            m = self.models.get(f)
+            if m is None:
+                # library models registered with pyvc.models.model(...) (also for the ghost primitives of
+                # pyvc/pymodels, which are python functions in an interpretable file)
+                from . import models as _models
+                m = _models.MODELS.get(f)
+            return m
         except TypeError:
             return None
 
